@@ -323,9 +323,13 @@ class ExecutionState:
         with self._replay_status_lock:
             if self._replay_status == ReplayStatus.REPLAY:
                 self._visited_operations.add(operation_id)
+                # the checkpoint thread merges new operations under _operations_lock while
+                # replaying branches get here concurrently: iterate over a snapshot
+                with self._operations_lock:
+                    operations_snapshot = list(self.operations.items())
                 completed_ops = {
                     op_id
-                    for op_id, op in self.operations.items()
+                    for op_id, op in operations_snapshot
                     if op.operation_type != OperationType.EXECUTION
                     and op.status
                     in {
